@@ -230,6 +230,7 @@ type Gen struct {
 	impByName map[string]*types.Package
 	lockObls  bool
 	keyPaths  map[string]string
+	keyAlias  map[*ssa.Function]string
 	coveredSite map[ssa.Instruction]bool
 	inInit    bool
 	unstableGlobals  map[string]bool
